@@ -254,9 +254,14 @@ package memberlist
 
 //@ pure mlNet(m *Memberlist) bool := mlOK(m) && m.highPriorityMsgQueue != nil && m.lowPriorityMsgQueue != nil && m.transport != nil && m.ackHandlers != nil
 
+//@ ghost $pktLabel string
 //@ func (*Memberlist).ingestPacket(m, buf, from, timestamp)
 //@   safety [C13]
 //@   requires ok: mlNet(m) && from != nil
+//@   at call RemoveLabelHeaderFromPacket: set $pktLabel := res1
+//@   at call (*Memberlist).handleCommand: assert label-isolation [C16]: ite(m.config.SkipInboundLabelCheck, $pktLabel == "", $pktLabel == m.config.Label)
+//@   at call decryptPayload: assert label-isolation-dec [C16]: ite(m.config.SkipInboundLabelCheck, $pktLabel == "", $pktLabel == m.config.Label)
+//@   at call decryptPayload: assert aad-is-own-label [C14,C16]: bseq(data) == bseq(m.config.Label)
 
 //@ func (*Memberlist).handleCommand(m, buf, from, timestamp)
 //@   safety [C13]
@@ -272,9 +277,6 @@ package memberlist
 
 //@ func decodeCompoundMessage(buf)
 //@   safety [C13]
-
-//@ func RemoveLabelHeaderFromPacket(buf)
-//@   safety [C13,C16]
 
 //@ func decryptPayload(keys, msg, data)
 //@   safety [C13,C14]
@@ -430,10 +432,13 @@ package memberlist
 // C13 / C09: inbound stream path
 // ---------------------------------------------------------------------
 
+//@ ghost $strLabel string
 //@ atomic Memberlist.pushPullReq rely stable
 //@ func (*Memberlist).handleConn(m, conn)
 //@   safety [C13]
 //@   requires ok: mlNet(m) && conn != nil
+//@   at call RemoveLabelHeaderFromStream: set $strLabel := res1
+//@   at call (*Memberlist).readStream: assert label-isolation [C16]: ite(m.config.SkipInboundLabelCheck, $strLabel == "", $strLabel == m.config.Label) && streamLabel == m.config.Label
 //@   at call (*Memberlist).readRemoteState: assert cap-concurrent [C13]: $numConcurrent < maxPushPullRequests
 //@   at call (*Memberlist).sendLocalState: assert reply-only-if-merging [C09,C13]: $numConcurrent < maxPushPullRequests
 //@   at call (*Memberlist).readRemoteState: set $rrsErr := res3
@@ -495,11 +500,18 @@ package memberlist
 //@   requires ok: mlNet(m) && conn != nil
 //@   loop #4 invariant hdr [C13,C20]: buflen(bufConn) >= 8
 
+//@ ghost $peekErr int
+//@ ghost $peeked []byte
 //@ func RemoveLabelHeaderFromStream(conn)
 //@   safety [C13,C16]
 //@   modular
+//@   bytes
 //@   requires nn: conn != nil
+//@   at call (*bufio.Reader).Peek: set $peekErr := res1
+//@   at call (*bufio.Reader).Peek: set $peeked := res0
 //@   ensures nn: result2 == nil ==> result0 != nil
+//@   ensures fragmentation [C16]: result2 != nil ==> $peekErr != 0 || (len($peeked) >= 2 && $peeked[1] < 1)
+//@   ensures label [C16]: result2 == nil && result1 != "" ==> len($peeked) == 2 + len(result1) && $peeked[0] == 244 && $peeked[1] == len(result1) && (forall i int :: 0 <= i && i < len(result1) ==> result1[i] == $peeked[2+i])
 
 // push/pull dispatch (C09 "hearsay never kills", C01): a remote entry becomes exactly the claim its state stands for
 //@ func (*Memberlist).mergeState(m, remote)
@@ -558,3 +570,52 @@ package memberlist
 //@   safety [C09,C20]
 //@   modular
 //@   requires ok: mlNet(m)
+
+// ---------------------------------------------------------------------
+// C16: label header codec and label isolation
+// ---------------------------------------------------------------------
+
+//@ axiom strext: forall s string, t string :: len(s) == len(t) && (forall i int :: 0 <= i && i < len(s) ==> s[i] == t[i]) ==> s == t
+
+// hdrOf(res, label, rest): res is the label header for `label` followed by `rest`
+//@ pure hdrOf(res []byte, label string, rest []byte) bool := len(res) == 2 + len(label) + len(rest) && res[0] == 244 && res[1] == len(label)
+//@      && (forall i int :: 0 <= i && i < len(label) ==> res[2+i] == label[i])
+//@      && (forall i int :: 0 <= i && i < len(rest) ==> res[2+len(label)+i] == rest[i])
+// unhdr(buf, out, label): the result of removing a present, well-formed header from buf
+//@ pure unhdr(buf []byte, out []byte, label string) bool := len(buf) >= 2 && buf[1] >= 1 && len(buf) >= 2 + buf[1] && len(label) == buf[1] && len(out) == len(buf) - 2 - buf[1]
+//@      && (forall i int :: 0 <= i && i < len(label) ==> label[i] == buf[2+i])
+//@      && (forall i int :: 0 <= i && i < len(out) ==> out[i] == buf[2+buf[1]+i])
+
+//@ func makeLabelHeader(label, rest)
+//@   safety [C13,C16]
+//@   bytes
+//@   requires short: len(label) >= 1 && len(label) <= 255
+//@   ensures hdr-len [C16]: len(result) == 2 + len(label) + len(rest) && result[0] == 244 && result[1] == len(label)
+//@   ensures hdr-label [C16]: forall i int :: 0 <= i && i < len(label) ==> result[2+i] == label[i]
+//@   ensures hdr-rest [C16]: forall i int :: 0 <= i && i < len(rest) ==> result[2+len(label)+i] == rest[i]
+
+//@ func AddLabelHeaderToPacket(buf, label)
+//@   safety [C13,C16]
+//@   bytes
+//@   ensures none [C16]: label == "" ==> result0 == buf && result1 == nil
+//@   ensures long [C16]: len(label) > 255 ==> result1 != nil
+//@   ensures hdr [C16]: len(label) >= 1 && len(label) <= 255 ==> result1 == nil && hdrOf(result0, label, buf)
+
+//@ func RemoveLabelHeaderFromPacket(buf)
+//@   safety [C13,C16]
+//@   bytes
+//@   ensures unlabelled [C16]: len(buf) == 0 || buf[0] != 244 ==> result0 == buf && result1 == "" && result2 == nil
+//@   ensures labelled [C16]: len(buf) > 0 && buf[0] == 244 && result2 == nil ==> unhdr(buf, result0, result1) && result1 != ""
+//@   ensures refuse [C16]: len(buf) > 0 && buf[0] == 244 && (len(buf) < 2 || buf[1] < 1 || len(buf) < 2 + buf[1]) ==> result2 != nil
+//@   ensures accept [C16]: len(buf) >= 2 && buf[0] == 244 && buf[1] >= 1 && len(buf) >= 2 + buf[1] ==> result2 == nil
+
+//@ lemma label-roundtrip [C16]
+//@   vars p []byte, b []byte, L string, q []byte, L2 string
+//@   hyp len(L) >= 1 && len(L) <= 255
+//@   hyp hdrOf(p, L, b)
+//@   hyp unhdr(p, q, L2)
+//@   concl L2 == L && len(q) == len(b) && (forall i int :: 0 <= i && i < len(b) ==> q[i] == b[i])
+
+//@ func labelOverhead(label)
+//@   safety [C11,C16]
+//@   ensures oh [C11,C16]: result == ite(label == "", 0, 2 + len(label))
